@@ -29,6 +29,10 @@ func validatePerBlockReward(r interface{}) error {
 		if len(rr.Denom) == 0 {
 			return fmt.Errorf("denom of per block reward can not be empty")
 		}
+		// bank.GetBalance panics on a denomination that is not a valid coin denomination
+		if err := sdk.ValidateDenom(rr.Denom); err != nil {
+			return fmt.Errorf("invalid per block reward: %w", err)
+		}
 		if rr.IsNegative() {
 			return fmt.Errorf("invalid per block reward: %v", rr)
 		}
